@@ -33,22 +33,25 @@ def sf_contains(sev, env, args):
 
 # ----------------------------------------------------------------------------- well-formed ASTs
 
-def nullable(sev, T, fname):
+def nullable(sev, T, fname, mode='wf'):
     key = '%s.%s' % (sev.m.types[T].get('name', T), fname)
+    if mode == 'ewf':
+        # the shape of a tree parsed from ANY text: every child may be missing unless stated otherwise
+        return key not in sev.ex.db.ewfnonnull
     return key in sev.ex.db.nullable
 
 
-def wf_any_fn(sev):
+def wf_any_fn(sev, mode='wf'):
     m = sev.m
-    return m.uf('wf_node', m.Any, m.Bool)
+    return m.uf('wf_node' if mode == 'wf' else 'ewf_node', m.Any, m.Bool)
 
 
-def wf_term(sev, env, v, depth=0, unfold=True):
+def wf_term(sev, env, v, depth=0, unfold=True, mode='wf'):
     """well-formedness of value v (no unfolding of interface / pointer children: atoms)"""
     m = sev.m
     ex = sev.ex
     k = m.kind(v.t)
-    wf = wf_any_fn(sev)
+    wf = wf_any_fn(sev, mode)
     if k == 'interface':
         a = v.leaves[0]
         impls = m.types[v.t].get('impls') or (m.types[m.under(v.t)].get('impls') or [])
@@ -59,7 +62,7 @@ def wf_term(sev, env, v, depth=0, unfold=True):
             return a != m.Any.nil
         t = z3.And(wf(a), z3.Or(*alts))
         if unfold:
-            unfold_any(sev, env, v.t, a, impls)
+            unfold_any(sev, env, v.t, a, impls, mode)
         return t
     if k == 'pointer':
         E = m.elem(v.t)
@@ -69,23 +72,27 @@ def wf_term(sev, env, v, depth=0, unfold=True):
         if m.kind(E) == 'struct' and v.t in m.any_index:
             a = m.any_make(v.t, [ref])
             if unfold:
-                unfold_any(sev, env, None, a, [v.t])
+                unfold_any(sev, env, None, a, [v.t], mode)
             return z3.And(ref != 0, wf(a))
         if m.kind(E) == 'interface':
             # pointer to an interface cell (e.g. *ValueExpr): the pointee must be well formed
             inner = ex.load(env.st, ex.ptr_of(v))
-            return z3.And(ref != 0, wf_term(sev, env, inner, depth + 1, unfold))
+            if mode == 'ewf':
+                return z3.And(ref != 0, z3.Or(inner.leaves[0] == m.Any.nil, wf_term(sev, env, inner, depth + 1, unfold, mode)))
+            return z3.And(ref != 0, wf_term(sev, env, inner, depth + 1, unfold, mode))
         return ref != 0
     if k == 'struct':
-        return wf_fields(sev, env, v.t, lambda fidx, ft, fname: field_of_val(sev, v, fidx), depth, unfold)
+        return wf_fields(sev, env, v.t, lambda fidx, ft, fname: field_of_val(sev, v, fidx), depth, unfold, mode)
     if k == 'slice':
         E = m.elem(v.t)
         arr, off, ln = v.leaves
         i = z3.Int('i!wf%d' % depth)
         ev = ex.load(env.st, Ptr('elem', E, '', arr, add0(off, i)))
-        body = wf_term(sev, env, ev, depth + 1, False)
+        body = wf_term(sev, env, ev, depth + 1, False, mode)
         if z3.is_true(body):
             return z3.BoolVal(True)
+        if mode == 'ewf' and m.kind(E) in ('interface', 'pointer'):
+            body = z3.Or(ev.leaves[0] == (m.Any.nil if m.kind(E) == 'interface' else 0), body)
         return forall([i], z3.Implies(z3.And(0 <= i, i < ln), body))
     return z3.BoolVal(True)
 
@@ -95,7 +102,7 @@ def field_of_val(sev, v, fidx):
     return Val(ft, v.leaves[a:b])
 
 
-def wf_fields(sev, env, T, getfield, depth, unfold=False):
+def wf_fields(sev, env, T, getfield, depth, unfold=False, mode='wf'):
     m = sev.m
     cs = []
     fields = m.types[m.under(T)].get('fields') or []
@@ -105,26 +112,24 @@ def wf_fields(sev, env, T, getfield, depth, unfold=False):
             fv = getfield(i, f['t'], f['n'])
             if fk == 'interface' and not (m.types[f['t']].get('impls') or m.types[m.under(f['t'])].get('impls')):
                 continue
-            if fk in ('pointer', 'interface') and nullable(sev, T, f['n']):
-                inner = wf_term(sev, env, fv, depth + 1, unfold)
+            if fk in ('pointer', 'interface') and nullable(sev, T, f['n'], mode):
+                inner = wf_term(sev, env, fv, depth + 1, unfold, mode)
                 isnil = fv.leaves[0] == (m.Any.nil if fk == 'interface' else 0)
                 cs.append(z3.Or(isnil, inner))
             else:
-                t = wf_term(sev, env, fv, depth + 1, unfold)
+                t = wf_term(sev, env, fv, depth + 1, unfold, mode)
                 if not z3.is_true(t):
                     cs.append(t)
     return z3.And(*cs) if cs else z3.BoolVal(True)
 
 
-def unfold_any(sev, env, iface_t, a, impls):
+def unfold_any(sev, env, iface_t, a, impls, mode='wf'):
     """one-step unfolding of wf_node(a) for the given candidate dynamic types, added to the state"""
     m = sev.m
     ex = sev.ex
-    wf = wf_any_fn(sev)
-    key = ('wfunfold', a.get_id(), id(env.st))
-    seen = getattr(env.st, '_unfolded', None)
+    wf = wf_any_fn(sev, mode)
     done = env.live.psums.setdefault(('wfunfold',), [])
-    ukey = (a.get_id(), tuple(sorted(impls)))
+    ukey = (a.get_id(), tuple(sorted(impls)), mode)
     if ukey in done:
         return
     done.append(ukey)
@@ -141,8 +146,8 @@ def unfold_any(sev, env, iface_t, a, impls):
 
         def getfield(i, ft, fname, p=p):
             return ex.load(env.st, Ptr('obj', p.T, fname + '.', p.ref))
-        body = wf_fields(sev, env, E, getfield, 1, False)
-        for cl in sev.ex.db.wfalso.get(m.types[E].get('name', ''), []):
+        body = wf_fields(sev, env, E, getfield, 1, False, mode)
+        for cl in (sev.ex.db.wfalso.get(m.types[E].get('name', ''), []) if mode == 'wf' else []):
             e2 = env.bind('self', Val(c, [ref]))
             body = z3.And(body, sev.eval_bool(cl.ast, e2))
         env.live.assume(z3.Implies(z3.And(m.any_is(c, a), wf(a)), z3.And(ref != 0, body)))
@@ -153,6 +158,15 @@ def sf_wf(sev, env, args):
     if not isinstance(v, Val):
         raise SFError('wf() of a non-value')
     return wf_term(sev, env, v)
+
+
+def sf_ewf(sev, env, args):
+    """ewf(x): x has the shape of a tree the parser can yield for ANY text (children may be missing; no typed nil)"""
+    v = args[0]
+    if not isinstance(v, Val):
+        raise SFError('ewf() of a non-value')
+    sev.ex.db.uses_ewf = True
+    return wf_term(sev, env, v, mode='ewf')
 
 
 # ----------------------------------------------------------------------------- pure evaluation of expressions
@@ -457,6 +471,7 @@ def stp_name(sev, env, stp):
 BUILTINS = {
     'contains': sf_contains,
     'wf': sf_wf,
+    'ewf': sf_ewf,
     'evalOf': sf_evalOf,
     'evalErr': sf_evalErr,
     'sumMon': sf_sumMon,
